@@ -145,7 +145,7 @@ CHECKS["C05"] = dict(
 CHECKS["C13"] = dict(
     level="fault_enumeration",
     technique="offline crash-consistency checker over a recorded strace log of a helper process (every rename and every upload return judged against an fsync-based durability model), reader/writer monitor for atomic visibility (also under -race), differential immutability monitor with a non-termination watchdog, hostile-key confinement monitor with a canary tree",
-    text="(1) A helper process performs seeded LocalBackend uploads (new nested and existing directories, mutable overwrites, immutable keys, partial-tile directories, empty/16 KiB/4 MiB bodies, the concurrent batch shape) under strace -f -y -ttt -T; the trace is replayed: at every rename the file's data is complete and covered by a finished fsync that started after the last write; at every upload return every directory entry from the backend root to the object (incl. freshly made directories) is covered by an fsync of its parent directory that started after the entry was made; no final name is written in place; the real files equal the uploaded bodies. (2) Writers overwrite mutable keys with self-describing bodies while readers fetch: every read is one complete body. (3) For lengths {0,1,16383,16384,16385,32768,1 MiB,5 MiB,...}: identical re-upload of an immutable object succeeds; first/middle/last byte changed, shorter, longer, empty, first-chunk-only are refused with bytes, mode and inode immutable flag unchanged; every call under a watchdog that reports non-termination from three equal stack samples. (4) ~130 (thorough ~2000) hostile keys through Upload/Fetch/Discard with a canary tree around the backend directory.",
+    text="(1) A helper process performs seeded LocalBackend uploads (new nested and existing directories, mutable overwrites, immutable keys, partial-tile directories, empty/16 KiB/4 MiB bodies, the concurrent batch shape) under strace -f -y -ttt -T; the trace is replayed: at every rename the file's data is complete and covered by a finished fsync that started after the last write; at every upload return every directory entry from the backend root to the object (incl. freshly made directories) is covered by an fsync of its parent directory that started after the entry was made; no final name is written in place; the real files equal the uploaded bodies; the same under injected system-call errors (the tracer fails the K-th write/fsync/renameat/openat/fchmod/close with ENOSPC/EIO/EMFILE/EPERM): an Upload that still reports success must be complete and durable and a key never holds a torn object. (2) Writers overwrite mutable keys with self-describing bodies while readers fetch: every read is one complete body. (3) For lengths {0,1,16383,16384,16385,32768,1 MiB,5 MiB,...}: identical re-upload of an immutable object succeeds; first/middle/last byte changed, shorter, longer, empty, first-chunk-only are refused with bytes, mode and inode immutable flag unchanged; every call under a watchdog that reports non-termination from three equal stack samples. (4) ~130 (thorough ~2000) hostile keys through Upload/Fetch/Discard with a canary tree around the backend directory.",
     note="Durability is decided against a crash model replayed over a real syscall trace (file data durable after fsync(file); directory entry durable after fsync of that directory; everything else may be lost or reordered), not by cutting power. Symlinks planted inside the backend directory are outside the statement (keys, not the directory's contents, are the input). Fixed defect F1 (empty content never returned) stays covered by (3).",
     design_ref="DESIGN.md section 3, C13",
     parts=[P("durability", "^TestC13Durability$", shards=(3, 12)), P("atomic", "^TestC13Atomic$", shards=(1, 2)), P("atomic-race", "^TestC13Atomic$", race=True, shards=(1, 1)),
